@@ -228,15 +228,20 @@ fn gen_scenario(t: &mut Tape, borrowed: bool) -> Scenario {
     // scale swarm: one chain in sixteen is long (up to 150 calls: beyond any 8/16/32/64-entry
     // table or bitmask), and one in sixteen has `more` calls with dozens of continuing replies
     let scale = t.draw(16);
+    // ... and one chain in a thousand has a little more than 2^16 calls (C06 only: C11 re-reads
+    // every held item after every further one)
+    let wide = !via_proxy && !borrowed && scale == 13 && t.draw(64) == 63;
     let n = if via_proxy {
         1
+    } else if wide {
+        65_540 + t.draw(200)
     } else if scale == 15 {
         20 + t.draw(131)
     } else {
         1 + t.draw(6)
     };
     let max_cont = if scale == 14 { 200 } else { 4 };
-    let size_style = if scale >= 14 && t.draw(2) == 1 { 4 } else { size_style };
+    let size_style = if wide { 0 } else if scale >= 14 && t.draw(2) == 1 { 4 } else { size_style };
     let mut calls = Vec::new();
     let mut owed = Vec::new();
     let mut salt = 0usize;
@@ -247,7 +252,16 @@ fn gen_scenario(t: &mut Tape, borrowed: bool) -> Scenario {
             // C11 needs replies to hold: no oneway-only chains
             [CallKind::Plain, CallKind::More, CallKind::Plain, CallKind::Oneway][t.draw(4)]
         } else {
-            [CallKind::Plain, CallKind::Oneway, CallKind::More][t.draw(3)]
+            // (a very long chain has few oneway calls: its owed replies must exceed 2^16 too)
+            if wide {
+                if i % 50 == 0 {
+                    CallKind::Oneway
+                } else {
+                    [CallKind::Plain, CallKind::More][t.draw(2)]
+                }
+            } else {
+                [CallKind::Plain, CallKind::Oneway, CallKind::More][t.draw(3)]
+            }
         };
         calls.push(kind);
         let mut final_reply = |t: &mut Tape, owed: &mut Vec<Owed>, salt: &mut usize| {
